@@ -433,6 +433,8 @@ def b_forms(prim, tier):
 # evaluation
 
 _PARSER = None
+_XPARSER = None
+EXTRA_PRIMITIVES = ['FOO', 'Bar', 'baz_1']      # words no formatted Michelson expression contains
 
 
 def _shared_parser():
@@ -443,21 +445,49 @@ def _shared_parser():
     return _PARSER
 
 
-def roundtrip(e, inline, shared=False):
-    """-> (status, text, back/err); status in ok | differs | parse-error | format-error."""
+def _extra_parser():
+    """The other public constructor option that does not write files: a parser told to accept some extra words."""
+    global _XPARSER
+    if _XPARSER is None:
+        from pytezos.michelson.parse import MichelsonParser
+        _XPARSER = MichelsonParser(extra_primitives=list(EXTRA_PRIMITIVES))
+    return _XPARSER
+
+
+def fmt(e, inline, wrap=False):
+    """-> (text, None) | (None, error)"""
     from pytezos.michelson.format import micheline_to_michelson
+    try:
+        return micheline_to_michelson(e, inline=inline, wrap=wrap), None
+    except Exception as ex:  # noqa
+        return None, f'{type(ex).__name__}: {ex}'
+
+
+def parse_back(e, text, how):
+    """how: 'default' = michelson_to_micheline(text); 'shared' = michelson_to_micheline(text, parser=<reused MichelsonParser()>);
+    'extra' = <reused MichelsonParser(extra_primitives=..)>.parse(text).  -> (status, back/err)"""
     from pytezos.michelson.parse import michelson_to_micheline
     try:
-        text = micheline_to_michelson(e, inline=inline)
+        if how == 'shared':
+            back = michelson_to_micheline(text, parser=_shared_parser())
+        elif how == 'extra':
+            back = _extra_parser().parse(text)
+        else:
+            back = michelson_to_micheline(text)
     except Exception as ex:  # noqa
-        return 'format-error', None, f'{type(ex).__name__}: {ex}'
-    try:
-        back = michelson_to_micheline(text, parser=_shared_parser()) if shared else michelson_to_micheline(text)
-    except Exception as ex:  # noqa
-        return 'parse-error', text, f'{type(ex).__name__}: {ex}'[:300]
+        return 'parse-error', f'{type(ex).__name__}: {ex}'[:300]
     if back == e:
-        return 'ok', text, None
-    return 'differs', text, back
+        return 'ok', None
+    return 'differs', back
+
+
+def roundtrip(e, inline, shared=False, wrap=False):
+    """-> (status, text, back/err); status in ok | differs | parse-error | format-error."""
+    text, err = fmt(e, inline, wrap)
+    if text is None:
+        return 'format-error', None, err
+    status, back = parse_back(e, text, 'shared' if shared else 'default')
+    return status, text, back
 
 
 def _scribble(x):
